@@ -254,6 +254,13 @@ def check_config(config: dict) -> None:
                 )
 
     # engine checks
+    # every ensemble needs its own entry in ensemble_engines
+    n_ens_engs = len(config["simulation"]["ensemble_engines"])
+    if n_ens_engs < n_ens:
+        raise TOMLConfigError(
+            f"N_interfaces {n_ens} > N_ensemble_engines {n_ens_engs}!"
+        )
+
     unique_engines = []
     for engines in config["simulation"]["ensemble_engines"]:
         for engine in engines:
